@@ -210,8 +210,15 @@ func (sc *sched) fire(t *vtimer) {
 	t.fired = true
 	if t.ch != nil {
 		// non-blocking send of the current time
-		if len(t.ch.buf) < t.ch.cap {
-			t.ch.buf = append(t.ch.buf, sc.ex.it.timeValue(sc.clock))
+		v := sc.ex.it.timeValue(sc.clock)
+		if w := t.ch.dequeue(&t.ch.recvq); w != nil {
+			w.val, w.ok, w.done = v, true, true
+			if w.grp != nil {
+				w.grp.fired = w.caseI
+				w.grp.recvV, w.grp.recvOK = v, true
+			}
+		} else if len(t.ch.buf) < t.ch.cap {
+			t.ch.buf = append(t.ch.buf, v)
 		}
 	}
 	if t.fn != nil {
